@@ -354,7 +354,7 @@ theorem describe_setEntry (pre : Predef) (n : Node J V) (mod attr : String) (e :
 
 /-- **describe_stable.**  No request (change, do, read — anything that is not a configuration change) alters
 the report; hence it is the same after any history. -/
-theorem describe_stable (pre : Predef) (n : Node J V) (h : List (Env V × Request J)) :
+theorem describe_stable (pre : Predef) (n : Node J V) (h : List (Env V × Request J V)) :
     describe pre (finalNode pre n h) = describe pre n := by
   induction h generalizing n with
   | nil => rfl
@@ -443,7 +443,7 @@ theorem read_emits_validated (pre : Predef) (env : Env V) (n : Node J V) (spec :
     (∃ m w c, msg = .errorUpdate m w c) ∨
     ∃ mod p w v, mod ∈ n ∧ Acc.param p ∈ mod.accs ∧ wireName pre mod (.param p) = some w ∧
       msg = .update mod.name w (p.dt.exportV v) ∧ Validated p.dt v := by
-  have hfail : ∀ (mod : Module J V) (p : Param J V) (e : Err) (calls : List (DriverCall V)),
+  have hfail : ∀ (mod : Module J V) (p : Param J V) (e : Node.Err) (calls : List (DriverCall V)),
       msg ∈ (readFailed pre n mod p e calls).emits → ∃ m w c, msg = .errorUpdate m w c := by
     intro mod p e calls hm
     unfold readFailed at hm
@@ -478,7 +478,7 @@ theorem read_emits_validated (pre : Predef) (env : Env V) (n : Node J V) (spec :
           · cases h
 
 /-- every value update any request emits is the export of a validated value of the described parameter it names -/
-theorem step_emits_validated (pre : Predef) (env : Env V) (n : Node J V) (hwf : Node.WF pre n) (r : Request J)
+theorem step_emits_validated (pre : Predef) (env : Env V) (n : Node J V) (hwf : Node.WF pre n) (r : Request J V)
     (m w : String) (jv : J) (h : Msg.update m w jv ∈ (step pre env n r).emits) :
     ∃ mod p v, mod ∈ n ∧ mod.name = m ∧ Acc.param p ∈ mod.accs ∧ wireName pre mod (.param p) = some w ∧
       jv = p.dt.exportV v ∧ Validated p.dt v := by
@@ -503,8 +503,34 @@ theorem step_emits_validated (pre : Predef) (env : Env V) (n : Node J V) (hwf : 
     · cases he
     · injection hm with h1 h2 h3
       exact ⟨mod, p, v, hmem, h1.symm, hacc, h2 ▸ hw, h3, hval⟩
+  | assign m' attr raw =>
+    simp only [step] at h
+    unfold handleAssign at h
+    split at h
+    · cases h
+    · rename_i mod hf
+      split at h
+      · rename_i p hp
+        have hmem : mod ∈ n := by unfold findModule at hf; exact List.mem_of_find?_eq_some hf
+        have hacc : Acc.param p ∈ mod.accs := List.mem_of_find?_eq_some hp
+        split at h
+        · rename_i e _
+          exfalso
+          simp only at h
+          unfold readFailed at h
+          split at h
+          · cases h
+          · simp only at h
+            split at h
+            · simp only [List.mem_singleton] at h; cases h
+            · cases h
+        · rename_i v hv
+          obtain ⟨w', hw, hm⟩ := announce_mem pre mod p v _ h
+          injection hm with h1 h2 h3
+          exact ⟨mod, p, v, hmem, h1.symm, hacc, h2 ▸ hw, h3, Or.inr (Or.inr ⟨_, hv⟩)⟩
+      · cases h
 
-theorem describe_step (pre : Predef) (env : Env V) (n : Node J V) (r : Request J) :
+theorem describe_step (pre : Predef) (env : Env V) (n : Node J V) (r : Request J V) :
     describe pre (step pre env n r).node = describe pre n := by
   rcases step_node pre env n r with h | ⟨mod, attr, e, h⟩
   · rw [h]
@@ -515,7 +541,7 @@ emitted at any point of any history — by a `change` or by a `read` — can be 
 report (taken at any time: it is stable) gives for the name the update carries. -/
 theorem emits_importable_history (pre : Predef) (clientImports : J → J → Bool)
     (law : ∀ (dt : DtOps J V) (v : V), Validated dt v → clientImports dt.datainfo (dt.exportV v) = true)
-    (n : Node J V) (hwf : Node.WF pre n) (h : List (Env V × Request J))
+    (n : Node J V) (hwf : Node.WF pre n) (h : List (Env V × Request J V))
     (o : Outcome J V) (ho : o ∈ run pre n h) (m w : String) (jv : J) (hm : Msg.update m w jv ∈ o.emits) :
     ∃ ad, findDesc (describe pre n) m w = some ad ∧ clientImports ad.datainfo jv = true := by
   induction h generalizing n with
@@ -541,6 +567,199 @@ theorem emits_importable_history (pre : Predef) (clientImports : J → J → Boo
       rw [describe_step] at this
       exact this
 
+/-! ### the cache holds validated values only — read replies and snapshots -/
+
+/-- every cached value and every constant came out of the parameter's own datatype -/
+def CacheValid (n : Node J V) : Prop :=
+  ∀ mod ∈ n, ∀ p, Acc.param p ∈ mod.accs →
+    Validated p.dt p.entry.value ∧ ∀ c, p.constant = some c → Validated p.dt c
+
+/-- a request leaves the node alone, or stores for ONE parameter a value its datatype produced (or its old value) -/
+def StoresValid (n n' : Node J V) : Prop :=
+  n' = n ∨ ∃ mod p e, mod ∈ n ∧ Acc.param p ∈ mod.accs ∧ n' = setEntry n mod.name p.attr e ∧
+    (Validated p.dt e.value ∨ e.value = p.entry.value)
+
+theorem unique_of_nodup_map {α β : Type} (f : α → β) (l : List α) (h : (l.map f).Nodup) (x y : α) (hx : x ∈ l) (hy : y ∈ l)
+    (hxy : f x = f y) : x = y := by
+  induction l with
+  | nil => cases hx
+  | cons a as ih =>
+    rw [List.map_cons, List.nodup_cons] at h
+    rcases List.mem_cons.1 hx with rfl | hx' <;> rcases List.mem_cons.1 hy with rfl | hy'
+    · rfl
+    · exact absurd (hxy ▸ List.mem_map_of_mem hy') h.1
+    · exact absurd (hxy ▸ List.mem_map_of_mem hx') h.1
+    · exact ih h.2 hx' hy'
+
+theorem cacheValid_of_storesValid (pre : Predef) (n n' : Node J V) (hwf : Node.WF pre n) (hc : CacheValid n)
+    (h : StoresValid n n') : CacheValid n' := by
+  rcases h with rfl | ⟨mod, p, e, hmod, hp, rfl, hval⟩
+  · exact hc
+  · intro m' hm' p' hp'
+    rw [setEntry_eq_map] at hm'
+    obtain ⟨m0, hm0, rfl⟩ := List.mem_map.1 hm'
+    unfold updMod at hp'
+    by_cases hname : (m0.name == mod.name) = true
+    · rw [if_pos hname] at hp'
+      have hm : m0 = mod := unique_of_nodup_map (fun m : Module J V => m.name) n hwf.names m0 mod hm0 hmod (by simpa using hname)
+      subst hm
+      simp only [Module.setEntry, List.mem_map] at hp'
+      obtain ⟨a0, ha0, ha0'⟩ := hp'
+      cases a0 with
+      | command c => simp [Acc.setEntry] at ha0'
+      | param p0 =>
+        simp only [Acc.setEntry] at ha0'
+        by_cases hattr : (p0.attr == p.attr) = true
+        · rw [if_pos hattr] at ha0'
+          injection ha0' with ha0'; subst ha0'
+          have hpp : Acc.param p0 = Acc.param p :=
+            unique_of_nodup_map Acc.attr m0.accs (hwf.attrs m0 hm0) _ _ ha0 hp (by simpa [Acc.attr] using hattr)
+          injection hpp with hpp; subst hpp
+          refine ⟨?_, (hc m0 hm0 p0 hp).2⟩
+          rcases hval with hv | hv
+          · exact hv
+          · simp only; rw [hv]; exact (hc m0 hm0 p0 hp).1
+        · rw [if_neg hattr] at ha0'
+          injection ha0' with ha0'; subst ha0'
+          exact hc m0 hm0 p0 ha0
+    · rw [if_neg hname] at hp'
+      exact hc m0 hm0 p' hp'
+
+theorem storesValid_store (pre : Predef) (n : Node J V) (mod : Module J V) (p : Param J V) (v : V)
+    (calls : List (DriverCall V)) (mk : J → Reply J) (hmod : mod ∈ n) (hp : Acc.param p ∈ mod.accs) (hv : Validated p.dt v) :
+    StoresValid n (store pre n mod p v calls mk).node :=
+  Or.inr ⟨mod, p, ⟨v, none⟩, hmod, hp, rfl, Or.inl hv⟩
+
+theorem storesValid_readFailed (pre : Predef) (n : Node J V) (mod : Module J V) (p : Param J V) (e : Node.Err)
+    (calls : List (DriverCall V)) (hmod : mod ∈ n) (hp : Acc.param p ∈ mod.accs) :
+    StoresValid n (readFailed pre n mod p e calls).node := by
+  unfold readFailed; split
+  · exact Or.inl rfl
+  · exact Or.inr ⟨mod, p, ⟨p.entry.value, some e⟩, hmod, hp, rfl, Or.inr rfl⟩
+
+theorem storesValid_step (pre : Predef) (env : Env V) (n : Node J V) (hwf : Node.WF pre n) (r : Request J V) :
+    StoresValid n (step pre env n r).node := by
+  cases r with
+  | do_ spec data => exact Or.inl (handleDo_node ..)
+  | change spec j =>
+    simp only [step]
+    have hv := handleChange_verdict pre env n hwf spec j
+    cases hvd : changeVerdict pre env n spec j with
+    | refuse cls => rw [hvd] at hv; simp only at hv; rw [hv]; exact Or.inl rfl
+    | allowDo _ _ _ => rw [hvd] at hv; exact hv.elim
+    | allow m0 a0 hw v w0 =>
+      rw [hvd] at hv
+      obtain ⟨mod, p, hmem, _, _, _, ⟨m', a', _, hlook⟩, hadm, heq⟩ := hv
+      have hex := exported_of_lookupParam pre n m' a' mod p hlook
+      obtain ⟨_, _, hacc, _, hrev, _⟩ := (admitChange_ok_iff env mod p j v w0).1 hadm
+      rw [heq]
+      unfold finishWrite
+      split
+      · simp only
+        split
+        · exact Or.inl rfl
+        · exact Or.inl rfl
+        · exact storesValid_store pre n mod p v _ _ hmem hex.2.2.2.1 (Or.inl ⟨_, _, hacc⟩)
+        · split
+          · exact Or.inl rfl
+          · rename_i y hy
+            exact storesValid_store pre n mod p y _ _ hmem hex.2.2.2.1 (Or.inr (Or.inl ⟨_, hy⟩))
+      · exact storesValid_store pre n mod p w0 _ _ hmem hex.2.2.2.1 (Or.inr (Or.inl ⟨_, hrev⟩))
+  | read spec hd =>
+    simp only [step]
+    unfold handleRead
+    split
+    · exact Or.inl rfl
+    · split
+      · exact Or.inl rfl
+      · split
+        · exact Or.inl rfl
+        · rename_i m a mod p hl
+          have hex := exported_of_lookupParam pre n _ _ mod p hl
+          unfold readParam
+          split
+          · exact Or.inl rfl
+          · split
+            · simp only
+              split
+              · exact Or.inl rfl
+              · exact storesValid_readFailed pre n mod p _ _ hex.1 hex.2.2.2.1
+              · split
+                · exact storesValid_readFailed pre n mod p _ _ hex.1 hex.2.2.2.1
+                · rename_i v hv
+                  exact storesValid_store pre n mod p v _ _ hex.1 hex.2.2.2.1 (Or.inr (Or.inr ⟨_, hv⟩))
+            · exact Or.inl rfl
+  | assign m attr raw =>
+    simp only [step]
+    unfold handleAssign
+    split
+    · exact Or.inl rfl
+    · rename_i mod hf
+      split
+      · rename_i p hp
+        have hmem : mod ∈ n := by unfold findModule at hf; exact List.mem_of_find?_eq_some hf
+        have hacc : Acc.param p ∈ mod.accs := List.mem_of_find?_eq_some hp
+        split
+        · exact storesValid_readFailed pre n mod p _ _ hmem hacc
+        · rename_i v hv
+          exact storesValid_store pre n mod p v _ _ hmem hacc (Or.inr (Or.inr ⟨_, hv⟩))
+      · exact Or.inl rfl
+
+/-- **cache_valid.**  Whatever requests are served and whatever the module code assigns — including values its own
+datatype refuses — the cache never holds a value the datatype of the parameter did not produce. -/
+theorem cache_valid (pre : Predef) (n : Node J V) (hwf : Node.WF pre n) (hc : CacheValid n) (h : List (Env V × Request J V)) :
+    CacheValid (finalNode pre n h) := by
+  induction h generalizing n with
+  | nil => exact hc
+  | cons er rest ih =>
+    obtain ⟨env, r⟩ := er
+    exact ih _ (wf_step pre env n hwf r) (cacheValid_of_storesValid pre n _ hwf hc (storesValid_step pre env n hwf r))
+
+/-- **read_reply_importable** (relative to the datatype oracle law).  With a cache of validated values — which every
+history preserves (`cache_valid`) — the value of every read reply (constant, cached value of a parameter without
+`read_` method, freshly read value) is importable with the datainfo the report gives for that name.  The snapshot a
+new subscriber gets consists of the same exported cache values. -/
+theorem read_reply_importable (pre : Predef) (env : Env V) (n : Node J V) (hwf : Node.WF pre n) (hc : CacheValid n)
+    (clientImports : J → J → Bool)
+    (law : ∀ (dt : DtOps J V) (v : V), Validated dt v → clientImports dt.datainfo (dt.exportV v) = true)
+    (m a : String) (jv : J) (h : (handleRead pre env n (.full m a) false).reply = .read jv) :
+    ∃ ad, findDesc (describe pre n) m a = some ad ∧ clientImports ad.datainfo jv = true := by
+  unfold handleRead at h
+  simp only [Bool.false_eq_true, if_false, target] at h
+  cases hl : lookupParam pre n m a with
+  | error e => rw [hl] at h; simp [refuse] at h
+  | ok mp =>
+    obtain ⟨mod, p⟩ := mp
+    rw [hl] at h; simp only at h
+    have hex := exported_of_lookupParam pre n m a mod p hl
+    have hcv := hc mod hex.1 p hex.2.2.2.1
+    have hw : wireName pre mod (.param p) = some a := by simp [wireName, hex.2.2.1, hex.2.2.2.2]
+    have hdesc : findDesc (describe pre n) m a =
+        some ⟨a, .parameter, p.dt.datainfo, some p.readonly, p.constant.map p.dt.exportV, p.props⟩ := by
+      rw [findDesc_eq pre n hwf.names m a, ← hex.2.1, findModule_of_mem pre n hwf mod hex.1]
+      simp only [hex.2.2.1, if_true]
+      have := find?_of_nodup_filterMap (wireName pre mod) mod.accs (hwf.wires mod hex.1) (.param p) hex.2.2.2.1 a hw
+      unfold findWire; rw [this]; simp only [Option.bind_some]
+      exact describeAcc_param pre mod p a hw
+    refine ⟨_, hdesc, ?_⟩
+    have key : ∃ v, jv = p.dt.exportV v ∧ Validated p.dt v := by
+      unfold readParam at h
+      split at h
+      · rename_i c hcst; injection h with h; exact ⟨c, h.symm, hcv.2 c hcst⟩
+      · split at h
+        · simp only at h
+          split at h
+          · injection h with h; exact ⟨_, h.symm, hcv.1⟩
+          · unfold readFailed at h; split at h <;> cases h
+          · split at h
+            · unfold readFailed at h; split at h <;> cases h
+            · rename_i v hv
+              simp only [store] at h; injection h with h
+              exact ⟨v, h.symm, Or.inr (Or.inr ⟨_, hv⟩)⟩
+        · injection h with h; exact ⟨_, h.symm, hcv.1⟩
+    obtain ⟨v, rfl, hv⟩ := key
+    exact law p.dt v hv
+
 /-- **described_datainfo_equiv** (relative to the datatype oracle).  Assume the C03 law: the client datatype
 rebuilt from a datainfo accepts exactly the payloads the original datatype accepts.  Then the described datainfo of
 `(m, a)` accepts exactly the payloads the node's own parameter `m:a` accepts — because report and dispatcher use
@@ -558,6 +777,72 @@ theorem described_datainfo_equiv (pre : Predef) (n : Node J V) (hwf : Node.WF pr
 (`export='always'`), so every parameter entry of a report carries a readonly flag and a datainfo, as `describeAcc` says -/
 theorem always_exported : "datainfo" ∈ Frappy.Generated.C06.paramAlways ∧ "readonly" ∈ Frappy.Generated.C06.paramAlways ∧
     "datainfo" ∈ Frappy.Generated.C06.commandAlways := by decide +kernel
+
+/-! ### interface class and features -/
+
+theorem first_base (base : List String) (l : List String) :
+    match (l.filter (fun c => base.contains c)).take 1 with
+    | [] => ∀ y ∈ l, y ∉ base
+    | [x] => x ∈ base ∧ ∃ before after, l = before ++ x :: after ∧ ∀ y ∈ before, y ∉ base
+    | _ => False := by
+  induction l with
+  | nil => simp
+  | cons a as ih =>
+    by_cases ha : base.contains a = true
+    · have : ((a :: as).filter (fun c => base.contains c)).take 1 = [a] := by
+        rw [List.filter_cons, if_pos ha]; rfl
+      rw [this]
+      exact ⟨by simpa using ha, [], as, rfl, by simp⟩
+    · have hf : ((a :: as).filter (fun c => base.contains c)).take 1 = (as.filter (fun c => base.contains c)).take 1 := by
+        rw [List.filter_cons, if_neg ha]
+      rw [hf]
+      have han : a ∉ base := by simpa using ha
+      generalize (as.filter (fun c => base.contains c)).take 1 = res at ih ⊢
+      match res, ih with
+      | [], ih => intro y hy; rcases List.mem_cons.1 hy with rfl | h; exact han; exact ih y h
+      | [x], ⟨hx, before, after, heq, hb⟩ =>
+        refine ⟨hx, a :: before, after, by rw [heq]; rfl, ?_⟩
+        intro y hy; rcases List.mem_cons.1 hy with rfl | h; exact han; exact hb y h
+      | _ :: _ :: _, ih => exact ih
+
+/-- **class_props_derived.**  What the model derives from the class chain — the interface class and the features —
+satisfies the clause "the interface class and features match the implementing class": the interface class is the
+highest SECoP base class of the chain (or none), the features are exactly the direct `Feature` mixins. -/
+theorem class_props_derived (base : List String) (mro : List ClassInfo) :
+    ClassPropsOK base mro (interfaceClassesOf base mro) (featuresOf mro) := by
+  refine ⟨?_, rfl⟩
+  have h := first_base base (mro.map (·.name))
+  unfold interfaceClassesOf
+  generalize ((mro.map (·.name)).filter (fun c => base.contains c)).take 1 = res at h ⊢
+  match res, h with
+  | [], h => intro c hc; exact h c.name (List.mem_map_of_mem hc)
+  | [x], h => exact h
+  | _ :: _ :: _, h => exact h
+
+/-- the monitor accepts a report only if the clause holds -/
+theorem classPropsB_sound (base : List String) (mro : List ClassInfo) (ic feats : List String)
+    (h : classPropsB base mro ic feats = true) : ClassPropsOK base mro ic feats := by
+  unfold classPropsB at h
+  simp only [Bool.and_eq_true, decide_eq_true_eq] at h
+  rw [h.1, h.2]; exact class_props_derived base mro
+
+/-- at most one interface class is reported; a feature is reported iff a class of the chain with that name mixes in `Feature` directly -/
+theorem interface_le_one (base : List String) (mro : List ClassInfo) : (interfaceClassesOf base mro).length ≤ 1 := by
+  unfold interfaceClassesOf; simp [List.length_take]; omega
+
+theorem features_iff (mro : List ClassInfo) (f : String) :
+    f ∈ featuresOf mro ↔ ∃ c ∈ mro, c.isFeature = true ∧ c.name = f := by
+  unfold featuresOf; simp [List.mem_map, List.mem_filter, and_assoc]
+
+/-- table fact: the generated list of SECoP base classes has no duplicates (re-checked when modulebase.py changes) -/
+theorem base_classes_nodup : Frappy.Generated.C06.secopBaseClasses.Nodup := by decide +kernel
+
+/-- non-vacuity: a Drivable with a feature mixin and a non-direct feature subclass -/
+example : interfaceClassesOf Frappy.Generated.C06.secopBaseClasses
+      [⟨"GenB", false⟩, ⟨"FeatSub", false⟩, ⟨"FeatA", true⟩, ⟨"Drivable", false⟩, ⟨"Writable", false⟩, ⟨"Readable", false⟩,
+       ⟨"Module", false⟩, ⟨"object", false⟩] = ["Drivable"] ∧
+    featuresOf [⟨"GenB", false⟩, ⟨"FeatSub", false⟩, ⟨"FeatA", true⟩, ⟨"Drivable", false⟩] = ["FeatA"] := by
+  decide +kernel
 
 /-! ### non-vacuity (the node of `Props.C04.Example`) -/
 
